@@ -45,9 +45,11 @@ def goenv():
 
 def run(cmd, cwd=None, env=None, timeout=None, check=True, capture=True):
     try:
-        p = subprocess.run(cmd, cwd=cwd, env=env, timeout=timeout, text=True,
+        p = subprocess.run(cmd, cwd=cwd, env=env, timeout=timeout,
                            stdout=subprocess.PIPE if capture else None,
                            stderr=subprocess.STDOUT if capture else None)
+        if capture:
+            p.stdout = p.stdout.decode("utf-8", errors="replace")
     except subprocess.TimeoutExpired:
         raise Infra("timeout after %ss: %s" % (timeout, " ".join(cmd)))
     if check and p.returncode != 0:
